@@ -225,7 +225,8 @@ package logqlmetric
 //@   modifies *
 //@   ensures[both-sides-advance] ret0 ==> ln_called && ln_r0 && rn_called && rn_r0
 //@   ensures[timestamp-of-left] ret0 ==> r.Timestamp == left.Timestamp
-//@   loop 0 invariant rangeindex+1 <= len(left.Samples) && leftSamples != nil
+//@   loop 0 entry_ensures[index-of-this-step-only] leftSamples != nil && len(leftSamples) == 0
+//@   loop 0 invariant rangeindex+1 <= len(left.Samples) && leftSamples != nil && len(leftSamples) <= rangeindex+1
 //@   loop 0 body_ensures[left-indexed-by-key] k0_called && has(leftSamples, k0_r0) && same(leftSamples[k0_r0], s)
 //@   loop 1 modifies r.Samples, r.Samples[*]
 //@   loop 1 invariant rangeindex+1 <= len(right.Samples)
